@@ -32,6 +32,9 @@ Iterables ==
     [n |-> "until", e |-> Call("until", <<IntL(2)>>), data |-> EmptyScope, xs |-> <<I(0), I(1)>>, kind |-> "seq"],
     [n |-> "iterator", e |-> Id("xs"), data |-> [xs |-> Iter(Ints(3))], xs |-> Ints(3), kind |-> "seq"],
     [n |-> "map1", e |-> Id("xs"), data |-> [xs |-> M([a |-> I(11)])], xs |-> Ints(1), kind |-> "map"],
+    \* a Go map[float64]string whose keys are all NaN (an entry that cannot be looked up by its key is still an entry);
+    \* the model only knows two entries with values x and y: the key is not printed
+    [n |-> "map_nan", e |-> Id("xs"), data |-> [xs |-> [t |-> "map", m |-> [a |-> S(<<"x">>), b |-> S(<<"y">>)], go |-> "nanmap"]], xs |-> <<S(<<"x">>), S(<<"y">>)>>, kind |-> "map"],
     [n |-> "hash1", e |-> Hash(<<"a">>, IntLits(1)), data |-> EmptyScope, xs |-> Ints(1), kind |-> "map"],
     [n |-> "map2", e |-> Id("xs"), data |-> [xs |-> M([a |-> I(11), b |-> I(22)])], xs |-> Ints(2), kind |-> "map"],
     [n |-> "hash2", e |-> Hash(<<"a", "b">>, IntLits(2)), data |-> EmptyScope, xs |-> Ints(2), kind |-> "map"],
@@ -88,7 +91,7 @@ CanUnroll == it.kind = "seq" /\ \A i \in 1..Len(names) : names[i] \in ControlFre
 
 Init == /\ it \in Iterables /\ names = <<>> /\ res = [k |-> "none"]
 AddStmt == /\ res.k = "none" /\ Len(names) < MaxLen
-           /\ \E b \in BlockNames : names' = Append(names, b)
+           /\ \E b \in BlockNames : (it.n = "map_nan" => b # "ek") /\ names' = Append(names, b)
            /\ UNCHANGED <<it, res>>
 Finish == /\ res.k = "none" /\ Len(names) >= 1
           /\ res' = Run(Prog, WithHelpers(it.data), EmptyScope, "")
